@@ -142,16 +142,30 @@ def coq_expected(c, verdict, live, repaired):
     return None
 
 
+_ENUM = None
+
+
+def enumeration():
+    """Deterministic streams, run on every check."""
+    global _ENUM
+    if _ENUM is None:
+        _ENUM = [H.tie_builder(n) for n in range(H.N_TIE)] + [H.scope_builder(n) for n in range(H.N_SCOPE)] + \
+                [H.compound_builder(k, comp) for k, comp in H.compound_cases(100)]
+    return _ENUM
+
+
 def pick_build(i):
     """Deterministic streams first (every run), then the seeded random streams."""
-    if i < H.N_TIE:
-        return H.tie_builder(i)
-    if i < H.N_TIE + H.N_SCOPE:
-        return H.scope_builder(i - H.N_TIE)
-    if i % 20 == 7:
+    en = enumeration()
+    if i < len(en):
+        return en[i]
+    j = i - len(en)
+    if j % 20 == 5:
         return H.shadow_builder
-    if i % 5 in (2, 4):
+    if j % 10 in (2, 4, 7):
         return H.deriv_builder
+    if j % 10 in (3, 8):
+        return H.diff_builder
     return None
 
 
@@ -222,11 +236,12 @@ def main(run):
     live = replay_known(run)
 
     # ---- T3 differential
-    n_cases = H.N_TIE + H.N_SCOPE + (600 if quick else 6000)
+    n_cases = len(enumeration()) + (600 if quick else 6000)
     n_max = max(n_cases, 4000) if t1_broken else n_cases    # broken tie: search harder for a failing input
     verdicts = collections.Counter()
     hist = collections.Counter()
     dhist = collections.Counter()
+    shist = collections.Counter()
     n_deriv = 0
     coq_cases = []
     violations = []
@@ -238,6 +253,7 @@ def main(run):
         seed = rng.randrange(10**12)
         c = H.run_case(i, seed, depth, exact_only=(i % 3 == 0), allow_known=(i % 4 != 1), build=pick_build(i))
         verdict, text = classify(c, live)
+        shist[(getattr(pick_build(i), "stream", None) or getattr(pick_build(i), "__name__", "generic")).split(":")[0]] += 1
         dk = H.differentiated_kinds(c.e)
         dhist.update(dk)
         if dk:
@@ -268,8 +284,11 @@ def main(run):
     run.extra["cases_with_derivatives"] = n_deriv
     run.extra["differentiated_operator_histogram"] = dict(dhist.most_common())
     run.extra["streams"] = {"tie_enumeration": H.N_TIE, "scope_enumeration": H.N_SCOPE,
-                            "random": n_cases, "of which derivative stream": "i % 5 in (2, 4)",
-                            "index re-use stream": "i % 20 == 7"}
+                            "compound_operator_enumeration (operator x shape x operand family x component)":
+                                len(enumeration()) - H.N_TIE - H.N_SCOPE,
+                            "random": n_cases - len(enumeration()),
+                            "of which": "30% derivative stream, 20% diff() stream, 5% index re-use stream"}
+    run.extra["stream_histogram"] = dict(shist)
 
     for c, text in violations:
         rep = H.describe(c)
